@@ -37,28 +37,26 @@ theorem landsOn_entered (m : CMod) (s0 s : St) (t q ep : Int) (hv : Valid m t) (
              s.f.loopStart = -1 ∧ s.f.loopCount = 0) :
     LandsOn m s0 ⟨0, some (entered m s t ep), checkEnd m (entered m s t ep)⟩ t q := by
   obtain ⟨hp0, hpl, hpat, _⟩ := hv
-  obtain ⟨c1, c2, c3, c4, c5, c6, c7, c8, c9, _, c11⟩ := checkEnd_fields m (entered m s t ep)
+  obtain ⟨c1, c2, c3, c4, c5, c6, c7, c8, c9, _, _⟩ := checkEnd_fields m (entered m s t ep)
+  obtain ⟨e1, e2, e3, e4, e5, e6, e7, e8, e9, _, _, _⟩ := entered_fields m s t ep
+  obtain ⟨g1, g2, g3, g4, g5, g6, _, g8, g9⟩ := entered_flow m s t ep
+  obtain ⟨f1, f2, f3, f4, f5, f6⟩ := hflow
   have hin : 0 ≤ t ∧ t < m.len := ⟨hp0, hpl⟩
-  have e1 : (entered m s t ep).pos = t := by simp [entered]
-  have e2 : (entered m s t ep).row = 0 := by simp [entered]
-  have e3 : (entered m s t ep).frame = 0 := by simp [entered]
-  have e4 : (entered m s t ep).sequence = s.sequence := by simp [entered]
-  have e5 : (entered m s t ep).ord = t := by simp [entered]
   refine ⟨rfl, ?_, ?_, ?_, ?_, ?_, ?_, ?_, ?_, ?_, ?_, ?_, ?_⟩
-  · simp [frameInfo, c2, e1, hin]
-  · simp [frameInfo, c2, e1, hin]
-  · simp [frameInfo, c3, e2]
-  · simp [frameInfo, c4, e3]
-  · simp [frameInfo, c5, e4, hq]
-  · simp [frameInfo, c2, e1, hin, hpat]
-  · simp [c1, e5]
-  · simp [c6, entered, hsp]
-  · simp [c7, entered]
-  · simp [c8, entered]
-  · simp [c9, entered]
+  · simp [frameInfo, c2, e2, hin]
+  · simp [frameInfo, c2, e2, hin]
+  · simp [frameInfo, c3, e3]
+  · simp [frameInfo, c4, e4]
+  · simp [frameInfo, c5, e5, hq]
+  · simp [frameInfo, c2, e2, hin, hpat]
+  · rw [c1, e1]
+  · rw [c6, e6, hsp]
+  · rw [c7, e7]
+  · rw [c8, e8]
+  · rw [c9, e9]
   · refine ⟨_, rfl, ?_⟩
-    obtain ⟨f1, f2, f3, f4, f5, f6⟩ := hflow
-    by_cases hl : m.lpReset = true <;> simp [entered, hl, f1, f2, f3, f4, f5, f6]
+    rw [g1, g2, g3, g4, g5, g6, g8, g9, f1, f2, f3, f4, f5, f6]
+    simp
 
 /-
 Full-strength statement (NOT provable, the code violates two of its clauses):
@@ -90,7 +88,7 @@ theorem C17_set_position_partial (m : CMod) (s : St) (p q : Int)
   have hp0 := hv.1
   have hpl := hv.2.1
   have hsp : setPosition m s p 0 = some (landed m s q p) :=
-    setPosition_valid m s p 0 q hv (by simp [hseq]) hqff hq0
+    setPosition_valid m s p 0 q hv (by simp [hseq]) hseq hqff hq0
   have hrange : ¬(p < 0 ∨ p ≥ m.len) := by omega
   refine ⟨landed m s q p, ⟨0, some (entered m (landed m s q p) p (repoEndPoint m (landed m s q p) p)),
     checkEnd m (entered m (landed m s q p) p (repoEndPoint m (landed m s q p) p))⟩, ?_, ?_, ?_⟩
@@ -109,5 +107,136 @@ theorem C17_set_position_partial (m : CMod) (s : St) (p q : Int)
     · simp [landed]
     · simp [landed]
     · simp [landed, resetFlow]
+
+/-! ### Witness modules (also replayed on the real library by tools/checks/c17.py) -/
+
+/-- two orders, two 64-row patterns, one sequence (harness: `H 1 2 2 0 0 0 0 6 125 / O 0 1 / R 64 64`). -/
+def wTwo : CMod :=
+  { len := 2, pat := 2, xxo := [0, 1], rows := [64, 64], ctl := [0, 0],
+    seqs := [{ entry := 0, scanOrd := 0, scanRow := 0, scanNum := 1 }],
+    info := [{ time := 0 }, { time := 7680 }] }
+
+/-- playing order 1, row 1, tick 3 of `wTwo`. -/
+def wTwoMid : St := { ord := 1, pos := 1, row := 1, frame := 3, f := { numRows := 64 } }
+
+/-- The hypotheses of `C17_set_position_partial` are satisfiable in a non-trivial way: jump
+from the middle of order 1 (with a pattern break, a jump and a pattern delay pending) to order 0. -/
+example : ∃ s1 fr, xmpSetPosition wTwo { wTwoMid with f := { numRows := 64, pbreak := 1, jump := 1, delay := 3 } } 0
+      = some (-1, s1) ∧ playFrame wTwo s1 = some fr ∧
+      LandsOn wTwo { wTwoMid with f := { numRows := 64, pbreak := 1, jump := 1, delay := 3 } } fr 0 0 :=
+  C17_set_position_partial wTwo _ 0 0 rfl (by decide) (by decide) (by decide) (by decide)
+
+/-- **Counterexample (known finding `ret:xmp_set_position(0)=-1`)**: for the first order the
+call reports `-1`, not `0`. -/
+theorem C17_set_position_ret0_counterexample :
+    (xmpSetPosition wTwo wTwoMid 0).map Prod.fst = some (-1) := by decide
+
+/-- **Counterexample (known finding `land:xmp_set_position(current-order)`)**: `xmp_set_position(1)`
+while order 1 is playing (row 1, tick 3) returns 1, but the next frame is row 1, tick 4 — not
+row 0, tick 0: the landing clause of the property fails when `p` is the order already playing. -/
+theorem C17_set_position_current_order_counterexample :
+    ((xmpSetPosition wTwo wTwoMid 1).bind fun (r, s1) => (playFrame wTwo s1).map fun fr =>
+      (r, fr.rc, fr.mid.isSome, (frameInfo wTwo fr.st).pos, (frameInfo wTwo fr.st).row,
+       (frameInfo wTwo fr.st).frame)) = some (1, 0, false, 1, 1, 4) := by decide
+
+/-! ### Refusal -/
+
+/-- **C17_refuse** (positions): a target outside the order list (negative or `≥ len`) is refused
+with `-XMP_ERROR_INVALID` and nothing changes. -/
+theorem C17_refuse_position (m : CMod) (s : St) (p : Int) (hs : s.playing = true)
+    (h : p < 0 ∨ p ≥ m.len) : xmpSetPosition m s p = some (errInvalid, s) := by
+  simp [xmpSetPosition, hs, h]
+
+/-- **C17_refuse** (rows): a row outside the current pattern (negative or `≥ rows`) is refused
+with `-XMP_ERROR_INVALID` and nothing changes.  The current pattern is the one
+`xmp_get_frame_info` reports (`frameInfo`). -/
+theorem C17_refuse_row (m : CMod) (s : St) (r : Int) (hs : s.playing = true)
+    (h : r < 0 ∨ r ≥ (frameInfo m s).numRows) : xmpSetRow m s r = (errInvalid, s) := by
+  unfold frameInfo at h
+  simp only at h
+  have hpos : (if s.pos < 0 ∨ s.pos ≥ m.len then 0 else s.pos) = (if 0 ≤ s.pos ∧ s.pos < m.len then s.pos else 0) := by
+    by_cases h1 : 0 ≤ s.pos ∧ s.pos < m.len
+    · have : ¬(s.pos < 0 ∨ s.pos ≥ m.len) := by omega
+      simp [h1, this]
+    · have : (s.pos < 0 ∨ s.pos ≥ m.len) := by omega
+      simp [h1, this]
+  unfold xmpSetRow
+  simp only [hpos, hs]
+  by_cases hp : m.xxoAt (if 0 ≤ s.pos ∧ s.pos < m.len then s.pos else 0) < m.pat
+  · simp only [hp, if_true] at h
+    have : m.xxoAt (if 0 ≤ s.pos ∧ s.pos < m.len then s.pos else 0) ≥ m.pat ∨ r < 0 ∨
+        r ≥ m.rowsOf (m.xxoAt (if 0 ≤ s.pos ∧ s.pos < m.len then s.pos else 0)) := by
+      rcases h with h | h
+      · exact Or.inr (Or.inl h)
+      · exact Or.inr (Or.inr h)
+    simp [this]
+  · have : m.xxoAt (if 0 ≤ s.pos ∧ s.pos < m.len then s.pos else 0) ≥ m.pat := by omega
+    simp [this]
+
+example : xmpSetPosition wTwo wTwoMid 2 = some (errInvalid, wTwoMid) :=
+  C17_refuse_position wTwo wTwoMid 2 rfl (by decide)
+example : xmpSetRow wTwo wTwoMid 64 = (errInvalid, wTwoMid) :=
+  C17_refuse_row wTwo wTwoMid 64 rfl (by decide)
+example : xmpSetRow wTwo wTwoMid (-1) = (errInvalid, wTwoMid) :=
+  C17_refuse_row wTwo wTwoMid (-1) rfl (by decide)
+
+/-! ### xmp_set_row -/
+
+/-- **C17_set_row**: for a row `r` of the current pattern (the pattern of the position that
+`xmp_get_frame_info` reports, also while a reposition or a restart is pending), `xmp_set_row(r)`
+returns `r` and the next frame is tick 0 of row `r` of that position — whatever pattern delay,
+break or jump was pending.  Needs the C16 facts `speed ≥ 1`, `delay ≥ 0`. -/
+theorem C17_set_row (m : CMod) (s : St) (r : Int) (hs : s.playing = true) (hl0 : 0 < m.len)
+    (hlen : s.pos < m.len) (hpat : (frameInfo m s).pattern < m.pat)
+    (hmk : m.marker = true → m.pat ≤ 0xfe)
+    (hr : 0 ≤ r ∧ r < (frameInfo m s).numRows) (hspeed : 1 ≤ s.speed) (hdelay : 0 ≤ s.f.delay) :
+    ∃ s1 fr, xmpSetRow m s r = (r, s1) ∧ playFrame m s1 = some fr ∧ fr.rc = 0 ∧
+      (frameInfo m fr.st).pos = (frameInfo m s).pos ∧ (frameInfo m fr.st).row = r ∧
+      (frameInfo m fr.st).frame = 0 ∧ (frameInfo m fr.st).sequence = s.sequence := by
+  unfold frameInfo at hpat hr
+  simp only at hpat hr
+  -- the position the call works on
+  have hc : (if s.pos < 0 ∨ s.pos ≥ m.len then 0 else s.pos) = (if s.pos < 0 then 0 else s.pos) := by
+    by_cases h1 : s.pos < 0
+    · simp [h1]
+    · have : ¬(s.pos < 0 ∨ s.pos ≥ m.len) := by omega
+      rw [if_neg this, if_neg h1]
+  have hc' : (if 0 ≤ s.pos ∧ s.pos < m.len then s.pos else 0) = (if s.pos < 0 then 0 else s.pos) := by
+    by_cases h1 : s.pos < 0
+    · have : ¬(0 ≤ s.pos ∧ s.pos < m.len) := by omega
+      rw [if_neg this, if_pos h1]
+    · have : (0 ≤ s.pos ∧ s.pos < m.len) := by omega
+      rw [if_pos this, if_neg h1]
+  rw [hc'] at hpat hr
+  simp only [hpat, if_true] at hr
+  generalize hcdef : (if s.pos < 0 then 0 else s.pos) = c at *
+  have hc0 : 0 ≤ c := by subst hcdef; split <;> omega
+  have hcl : c < m.len := by subst hcdef; split <;> omega
+  have hl : ¬ (m.len ≤ 0) := by omega
+  have hnend : ¬(m.marker = true ∧ m.xxoAt c = 0xff) := by
+    intro ⟨a, b⟩; have := hmk a; omega
+  have hrefuse : ¬(m.xxoAt c ≥ m.pat ∨ r < 0 ∨ r ≥ m.rowsOf (m.xxoAt c)) := by omega
+  have hmul : ¬ (0 ≥ s.speed * (1 + s.f.delay)) := by
+    have := Int.mul_pos (show 0 < s.speed by omega) (show 0 < 1 + s.f.delay by omega)
+    omega
+  have hin : 0 ≤ c ∧ c < m.len := ⟨hc0, hcl⟩
+  refine ⟨{ s with pos := c, ord := c, row := r, frame := -1,
+                   f := { s.f with numRows := m.rowsOf (m.xxoAt c) } },
+          ⟨0, none, checkEnd m { s with pos := c, ord := c, row := r, frame := 0,
+                                        f := { s.f with numRows := m.rowsOf (m.xxoAt c) } }⟩, ?_, ?_, rfl, ?_⟩
+  · unfold xmpSetRow
+    simp only [hc, hcdef, hs, hrefuse, if_false]
+    rfl
+  · unfold playFrame
+    simp [hs, hl, hnend, hmul]
+  · obtain ⟨_, c2, c3, c4, c5, _⟩ := checkEnd_fields m
+      { s with pos := c, ord := c, row := r, frame := 0,
+               f := { s.f with numRows := m.rowsOf (m.xxoAt c) } }
+    simp [frameInfo, hc', hcdef, c2, c3, c4, c5, hin]
+
+example : ∃ s1 fr, xmpSetRow wTwo { wTwoMid with f := { numRows := 64, delay := 3, pbreak := 1 } } 17 = (17, s1) ∧
+    playFrame wTwo s1 = some fr ∧ fr.rc = 0 ∧ (frameInfo wTwo fr.st).pos = 1 ∧ (frameInfo wTwo fr.st).row = 17 ∧
+    (frameInfo wTwo fr.st).frame = 0 ∧ (frameInfo wTwo fr.st).sequence = 0 :=
+  C17_set_row wTwo _ 17 rfl (by decide) (by decide) (by decide) (by decide) (by decide) (by decide) (by decide)
 
 end Xmp.Control
